@@ -558,7 +558,11 @@ CLASH_KINDS = ['sub_sub', 'sub_var', 'var_sub', 'var_var', 'var_var_other_col',
                'explicit_vs_auto', 'dense_dense',
                # the first holder of the name is a sown / perturbation variable
                'sow_var', 'sow_sub', 'perturb_sub', 'perturb_var',
-               'sow_var_other_col']
+               'sow_var_other_col',
+               # the name is already used (legally) in two collections when it
+               # is declared a second time in one of them
+               'two_cols_then_second', 'two_cols_then_first',
+               'param_col_then_param']
 # kinds whose first op the tree walker does not track as a name holder: the
 # prediction is fixed by construction
 FORCED = {'sow_var': True, 'sow_sub': True, 'perturb_sub': True,
@@ -589,6 +593,15 @@ def inject_clash(prog, kind):
                       var('perturbations', 'dup')],
       'sow_var_other_col': [{'op': 'sow', 'col': 'aux', 'name': 'dup'},
                             var('cache', 'dup')],
+      'two_cols_then_second': [var('cache', 'dup'), var('batch_stats', 'dup'),
+                               {'op': 'stat', 'col': 'batch_stats',
+                                'name': 'dup', 'm': 0.5}],
+      'two_cols_then_first': [var('cache', 'dup'), var('batch_stats', 'dup'),
+                              {'op': 'stat', 'col': 'cache', 'name': 'dup',
+                               'm': 0.5}],
+      'param_col_then_param': [var('cache', 'dup'),
+                               {'op': 'param', 'name': 'dup', 'shape': [2]},
+                               {'op': 'param', 'name': 'dup', 'shape': [2]}],
   }[kind]
   return add
 
@@ -609,7 +622,7 @@ def inject_clash(prog, kind):
 def name_clashes(case, ctx):
   case, kind, d, pos = case
   case = L.normalize_case(dict(case, shared=[]))
-  a, b = inject_clash(case['prog'], kind)
+  *a, b = inject_clash(case['prog'], kind)
 
   def insert(prog, dd):
     """Returns (program, inserted?)."""
@@ -624,7 +637,7 @@ def name_clashes(case, ctx):
       return prog, False
     ops = list(prog['ops'])
     i = pos % (len(ops) + 1)
-    ops = ops[:i] + [a] + ops[i:] + [b]
+    ops = ops[:i] + list(a) + ops[i:] + [b]
     return dict(prog, ops=ops), True
 
   prog2, ok = insert(case['prog'], d)
